@@ -24,12 +24,8 @@ Section Frame.
     destruct (rl_allow r now) as [a r']. cbn. auto.
   Qed.
 
-  (** the drawing event of one MultiState::draw: the exact arguments of draw_to_term *)
-  Definition ms_draw_event (m : mstate) (extra : option (list line)) : list termop * N * bool :=
-    match ms_target m with
-    | TTerm tg => draw_to_term (ms_frame m extra) (ms_erase_n m extra) (ms_align m) (tt_below tg) W H
-    | _ => ([], 0, false)
-    end.
+  (** [ms_draw_event] (the exact arguments of draw_to_term) is defined in model/MultiSpec.v *)
+  Local Notation ms_draw_event := (MultiSpec.ms_draw_event W H).
 
   (** C02 (2) / I2: an attempted multi draw calls draw_to_term exactly once, with the lines
       [extra ++ orphans ++ members' stored lines in ordering order] and the erase count
@@ -40,7 +36,7 @@ Section Frame.
     then snd (fst (fst r)) = fst (fst (emit fails c (fst (fst (ms_draw_event m extra)))))
     else snd (fst (fst r)) = [] /\ snd (fst r) = c.
   Proof.
-    cbn zeta. unfold ms_draw_event, ms_erase_n.
+    cbn zeta. unfold MultiSpec.ms_draw_event, ms_erase_n.
     destruct (ms_target m) as [|tg|i] eqn:Ht.
     - rewrite ms_draw_hidden by (rewrite Ht; discriminate). unfold ms_attempt. rewrite Ht. auto.
     - rewrite (ms_draw_unfold W H fails m force extra now c tg Ht). unfold ms_attempt. rewrite Ht.
